@@ -152,7 +152,7 @@ def run(ctx):
                               {"what": "combined-min", "p1": True})
 
     # ---------------- default functions and fitted attributes ----------------
-    shapes = [(n, p) for n in [12, 20, 57, 200] for p in [1, 2, 3]]
+    shapes = [(n, p) for n in [12, 20, 57, 200] for p in [1, 2, 3]] + [(1500, 10), (700, 8)]
     for n, p in shapes:
         X = pd.DataFrame(np.asarray([[rng.gauss(0, 1) for _ in range(p)] for _ in range(n)]))
         for scale in [0.0, 0.5, 1.0, 3.0]:
@@ -310,6 +310,20 @@ def run(ctx):
             if not np.allclose(np.asarray(got, dtype=float), np.asarray(want, dtype=float), rtol=1e-12, atol=0.0):
                 v(f"{name}: after fit on {n1} rows and update with {n2} more, {attr} = {got!r}; the documented value for the {n1 + n2} training rows (a fresh fit on all of them) is {want!r}",
                   {"detector": name, "n1": n1, "n2": n2, "p": p_, "X": Xa.to_numpy().tolist()}, {"what": "update-fitted-value", "detector": name})
+    # ---- DEFAULT-configured detectors (no hyper-parameter passed) on long, wide training data: the fitted value is the documented default (scale 2) ----
+    for n_, p_ in [(400, 1), (1200, 10), (3000, 3)]:
+        Xl = pd.DataFrame(np.asarray([[rng.gauss(0, 1) for _ in range(p_)] for _ in range(n_)]))
+        from skchange.anomaly_detectors import CAPA as _CAPAd, CircularBinarySegmentation as _CBSd
+        from skchange.change_detectors import MovingWindow as _MWd, SeededBinarySegmentation as _SBSd
+        dd = [("PELT().penalty_", PELT().fit(Xl).penalty_, 2.0 * 2 * p_ * math.log(n_)),
+              ("SeededBinarySegmentation().threshold_", _SBSd().fit(Xl).threshold_, 2.0 * 2 * p_ * math.sqrt(math.log(n_))),
+              ("CircularBinarySegmentation().threshold_", _CBSd().fit(Xl).threshold_, 2.0 * 2 * p_ * math.log(n_ * 1000)),
+              ("MovingWindow().threshold_", _MWd().fit(Xl).threshold_, 2.0 * doc_mw(n_, p_, 30, 0.01)),
+              ("CAPA().collective_penalty_", _CAPAd().fit(Xl).collective_penalty_, doc_capa(n_, p_, 2.0))]
+        for nm, got, want in dd:
+            ctx.case({"default_fit": nm, "n": n_, "p": p_}, nontrivial=True)
+            if not close(got, want):
+                v(f"{nm} fitted on {n_} x {p_} data is {got!r}, the documented default (scale 2.0) gives {want!r}", {"n": n_, "p": p_, "attribute": nm}, {"what": "default-fitted-value", "attr": nm})
     sys.path.pop(0)
     # ---- p is the NUMBER OF COLUMNS of the training data, whatever their labels: frames whose columns share a label ----
     import pandas as _pd
